@@ -164,7 +164,7 @@ func keysOf(s rset) []int64 {
 
 func runC19(r *vk.Run) {
 	r.SetRule("metamorphic relations between engine results (no reference model): for random datasets (all formats; plain lines and a label with arbitrary bytes; unique timestamps), random prefix pipelines q (parsers, formatters, filters, distinct) and random stateless filters f,g " +
-		"(needles with arbitrary bytes, random valid regexes, label matchers, typed comparisons): sub-multiset, negation partition (|=/!=, |~/!~, label =/!=, =~/!~), commutativity, idempotence, `a and b` = intersection, `a or b` = union, |= \"\" neutral. " +
+		"(needles with arbitrary bytes, random valid regexes, label matchers, typed comparisons): sub-multiset, negation partition (|=/!=, |~/!~, label =/!=, =~/!~), commutativity, idempotence, `a and b` = intersection, `a or b` = union, parenthesised nestings of and/or = the corresponding set expression with lines and labels unchanged, |= \"\" neutral. " +
 		"non-trivial = distinct relation instances where R(q) is non-empty and the filter is neither total nor empty on it.")
 	r.Assume("filters reading __error__ are excluded from the commutativity law (typed filters write it)", "entries compared by (timestamp, line) and labels modulo __error__/__error_details__")
 
@@ -385,6 +385,48 @@ func runC19(r *vk.Run) {
 					}
 					c.Count("law:or-and-mixed", 1)
 				}
+				// parenthesised nestings: grouping is explicit, so the result is fixed by the set algebra;
+				// every selected record must come back with the line and labels it has in R(q)
+				inSet := func(s rset, ts int64) bool { _, ok := s[ts]; return ok }
+				nested := []struct {
+					text string
+					in   func(ts int64) bool
+				}{
+					{"(" + fa + " and " + ha + ") or " + ga, func(ts int64) bool { return (inSet(rf, ts) && inSet(rh, ts)) || inSet(rg, ts) }},
+					{"(" + fa + ", " + ha + ") or " + ga, func(ts int64) bool { return (inSet(rf, ts) && inSet(rh, ts)) || inSet(rg, ts) }},
+					{"(" + fa + " or " + ha + ") and " + ga, func(ts int64) bool { return (inSet(rf, ts) || inSet(rh, ts)) && inSet(rg, ts) }},
+					{fa + " and (" + ga + " or " + ha + ")", func(ts int64) bool { return inSet(rf, ts) && (inSet(rg, ts) || inSet(rh, ts)) }},
+					{"(" + fa + " or " + ga + ") or (" + ha + " and " + fa + ")", func(ts int64) bool { return inSet(rf, ts) || inSet(rg, ts) }},
+				}
+				for _, nf := range nested {
+					text := qt + " | " + nf.text
+					rn, err := c19Eval(c, ds, n, text)
+					if err != nil {
+						c.Fail("", "nested predicate failed: "+text+": "+err.Error(), det(nil))
+						return
+					}
+					want := 0
+					for ts, b := range base {
+						if !nf.in(ts) {
+							continue
+						}
+						want++
+						e, ok := rn[ts]
+						if !ok {
+							c.Fail("", fmt.Sprintf("`%s` misses ts=%d which the set algebra selects", nf.text, ts), det(map[string]any{"h": h, "a": keysOf(rf), "b": keysOf(rg), "c": keysOf(rh), "nested": keysOf(rn)}))
+							return
+						}
+						if !sameEntry(b, e, true) {
+							c.Fail("", fmt.Sprintf("`%s` changed record ts=%d: line %q -> %q", nf.text, ts, b.Line, e.Line), det(map[string]any{"h": h}))
+							return
+						}
+					}
+					if want != len(rn) {
+						c.Fail("", fmt.Sprintf("`%s` selects %d records, the set algebra gives %d", nf.text, len(rn), want), det(map[string]any{"h": h, "a": keysOf(rf), "b": keysOf(rg), "c": keysOf(rh), "nested": keysOf(rn)}))
+						return
+					}
+					c.Count("law:nested", 1)
+				}
 			}
 		}
 		// neutral filter
@@ -415,5 +457,6 @@ func runC19(r *vk.Run) {
 	r.Require("law:commute", 1500)
 	r.Require("law:and", 300)
 	r.Require("law:or", 100)
+	r.Require("law:nested", 100)
 	r.Require("distinct_nontrivial", 200)
 }
